@@ -73,6 +73,23 @@ def gen_cases(ctx):
             if rng.random() < 0.15:
                 c["lib"] = sorted(rng.randrange(0, p + 2) for _ in o)
             cases.append(c)
+    # reorganisations that abandon transactions of accounts not involved in the new branch (pool side of "offered back")
+    for j, (p, la, lb) in enumerate([(0, 1, 2), (1, 2, 3), (0, 2, 4), (1, 1, 3)] if quick else
+                                    [(p, la, lb) for p in (0, 1, 2) for la in (1, 2, 3) for lb in (2, 3, 4, 5) if lb > la]):
+        blocks = []
+        parent = "G"
+        for i in range(p):
+            blocks.append({"name": "p%d" % i, "parent": parent, "txs": [{"from": 0, "to": 1, "amt": 1}], "bad": ""})
+            parent = "p%d" % i
+        fork = parent
+        for i in range(la):                                    # old branch: only accounts 3 and 4
+            txs = [{"from": 3, "to": 4, "amt": 1}] + ([{"from": 3, "to": 4, "amt": 2}] if i == 0 else [])
+            blocks.append({"name": "A%d" % i, "parent": (fork if i == 0 else "A%d" % (i - 1)), "txs": txs, "bad": ""})
+        for i in range(lb):                                    # new branch: accounts 0..2
+            blocks.append({"name": "B%d" % i, "parent": (fork if i == 0 else "B%d" % (i - 1)),
+                           "txs": [{"from": i % 3, "to": (i + 1) % 3, "amt": 1}], "bad": ""})
+        names = [b["name"] for b in blocks]
+        cases.append({"id": "pool%d" % j, "naccts": 5, "blocks": blocks, "arrivals": list(names)})
     # three competing branches, random
     for i in range(40 if quick else 1500):
         blocks = cd.rnd_tree(rng, rng.choice([4, 5, 6, 7]), pbad=0.3, pno=0.0)
@@ -196,13 +213,34 @@ def run(ctx):
                 fails.append(("C07:restart-changes-best", "after a restart following arrival %d the best block is not the one the node was on" % i, c))
             elif kr["pred"]:
                 fails.append(("C07:restart-inv:" + kr["pred"][0].split(" ")[0], "invariant fails after a restart following arrival %d: %s" % (i, kr["pred"][0]), c))
-    ctx.cov["evaluations"] = sum(len(o["steps"]) for o in outs) + len(outs2) + nrestart
+    # a real MemPool behind the MemPoolDel / MemPoolPut trace of the real ChainService (pool side of "offered back")
+    pool_eng = cd.build_pool_engine(ctx)
+    scripts, owner = [], []
+    for c, o in zip(cases, outs):
+        if any(st["put"] for st in o["steps"]) or c["id"].startswith("pool"):
+            for sc in cd.pool_scripts(c, o):
+                scripts.append(sc)
+                owner.append(c)
+    pouts = cd.run_pool_engine(ctx, pool_eng, scripts, "c07pool") if scripts else []
+    npool = 0
+    for sc, po, c in zip(scripts, pouts, owner):
+        if po.get("panic"):
+            fails.append(("C07:pool-engine-panic", "pool engine panics on %s: %s" % (sc["id"], po["panic"][:100]), c))
+            continue
+        for i, st in enumerate(po["steps"]):
+            npool += 1
+            if st["pred"]:
+                fails.append(("C07:pool:" + st["pred"][0].split(" ")[0],
+                              "pool after arrival %d of %s: %s%s" % (i, sc["id"], st["pred"][0],
+                                                                    (" (put refused: %s)" % st["puterrs"][0][:60]) if st["puterrs"] else ""), c))
+                break
+    ctx.cov["evaluations"] = sum(len(o["steps"]) for o in outs) + len(outs2) + nrestart + npool
     ctx.cov["traces_validated_against_impl"] = len(cases) + len(c2)
     ctx.cov["distinct_nontrivial"] = len(shapes)
     ctx.cov["rule"] = ("pairs of branches (prefix 0..2, lengths 1..4/5, shared or distinct first tx, invalid block at each position of the longer "
                        "branch) in three or more delivery orders incl. children before parents, plus random 3-branch trees; distinct = "
                        "distinct (size, best-height trace, MemPoolPut trace)")
-    ctx.cov["input_distribution"] = {"cases": len(cases), "corpus": len(corpus), "reference_runs": len(c2), "steps_with_reorg": nreorg, "restarts_after_arrivals": nrestart,
+    ctx.cov["input_distribution"] = {"cases": len(cases), "corpus": len(corpus), "reference_runs": len(c2), "steps_with_reorg": nreorg, "restarts_after_arrivals": nrestart, "pool_scripts": len(scripts), "pool_steps": npool,
                                      "f7_fixed_in_source": f7_fixed}
     ctx.sample({"case": cases[0], "final": outs[0]["final"]["best"][:12]})
     seen = set()
